@@ -264,3 +264,55 @@ def nontrivial(case, obs):  # noqa: F811
     if case['kind'].startswith('met-'):
         return len(obs.get('sweep', {}).get('accepted', [])) > 0
     return _nt_u(case, obs)
+
+
+# ----------------------------------------------------------------------------- GEOS-Chem bpch byte prefixes
+# C14 names bpch in its quantifier: cuts of reference-encoded bpch files through bpch1 (harness/bpchprefix.py reuses the C18
+# machinery; Coq side Corr/BpchPrefix.v, theorem Proofs/BpchPrefixThm.v prefix_open). Corr/C14.v wraps the CAMx terms in `Old`.
+from harness import bpchprefix as BP, gen_bpch as _gen_bpch  # noqa: E402
+
+_bp_prev = dict(gen=gen, impl=impl, coq_term=coq_term, py_check=py_check, nontrivial=nontrivial, shrink=shrink, translate=translate)
+
+
+def gen(rng, n, tier):  # noqa: F811
+    return _bp_prev['gen'](rng, n, tier) + BP.gen(rng, max(2, n // 4), tier)
+
+
+def impl(case):  # noqa: F811
+    return BP.impl(case) if BP.is_bpch(case) else _bp_prev['impl'](case)
+
+
+def coq_term(case, obs):  # noqa: F811
+    if BP.is_bpch(case):
+        return BP.coq_term(case, obs)
+    t = _bp_prev['coq_term'](case, obs)
+    return None if t is None else '(Old %s)' % t
+
+
+def py_check(case, obs):  # noqa: F811
+    return BP.py_check(case, obs) if BP.is_bpch(case) else _bp_prev['py_check'](case, obs)
+
+
+def nontrivial(case, obs):  # noqa: F811
+    return BP.nontrivial(case, obs) if BP.is_bpch(case) else _bp_prev['nontrivial'](case, obs)
+
+
+def shrink(case):  # noqa: F811
+    return [] if BP.is_bpch(case) else _bp_prev['shrink'](case)
+
+
+def translate():  # noqa: F811
+    return _bp_prev['translate']() + _gen_bpch.translate()
+
+
+RULE += (' BPCH: per generated GEOS-Chem bpch file (1-3 time blocks x 1-3 tracers, per-tracer layer counts, nested offsets, generated tracerinfo/diaginfo) '
+         'a set of cuts - every time-block end, every tracer boundary of the first time block, +-1/+-4 bytes and one header (216..232 bytes) around block '
+         'ends, the header region, random bytes - opened by bpch1 and evaluated in Coq (constructor BP: F = reader model, S = raises or exactly k whole time '
+         'blocks) and by an independent Python oracle; region 18 = cut exactly at a tracer boundary inside the first time block.')
+TRUSTED = TRUSTED + ['bpch: the trusted base of C18 (numpy structured dtype over a memmap = fixed-size chunking; character fields and time stamps are moved; '
+                     'harness string pools)']
+LEVEL_TEXT += (' GEOS-CHEM BPCH (Model/Bpch.v, Proofs/BpchPrefixProofs.v, Proofs/BpchPrefixThm.v; bpch1 header walk, time_type strides and itemcount modelled over the '
+               'translated dtype literals of Gen/Bpch.v): C14_bpch_every_prefix at full strength - for every bpch-convention file and every cut the reader raises, or '
+               'presents exactly the first k whole time blocks, or (cut exactly at a tracer boundary inside the FIRST time block) one time block with the first j '
+               'tracers; the last alternative is real (C14_bpch_first_block_tracer_cut_refuted, known finding C14-bpch-first-block-tracer-cut, region 18: the format '
+               'has no tracer count). Cuts evaluated in Coq (constructor BP) and by a Python oracle.')
